@@ -150,8 +150,8 @@ ABIS = {
         "pool": [f"x{i}" for i in range(29) if i not in (16, 17, 18)],
         "reserved": {"x16", "x17", "x18", "x29", "x30", "sp"},
         # AAPCS64: r0-r17 are corruptible by a call (r16/r17 = IP0/IP1, used by veneers and PLT stubs); x30 is the link register
-        "caller_saved": [f"x{i}" for i in range(16)] + ["x30"],
-        "caller_saved_extra": ["x16", "x17"],
+        "caller_saved": [f"x{i}" for i in range(18)] + ["x30"],
+        "caller_saved_extra": [],
         "conv": {"registers": [f"x{i}" for i in range(8)], "stack_alignment": 16, "caller_cleanup": True, "shadow_space": 0},
         "sp_step": 16,
         "call_text": "bl {sym}",
@@ -422,16 +422,13 @@ def gen_c16(seed, params):
     # reads: normally registers a correct allocator could have handed out
     nreads = rc.choices([0, 1, 2, 4], weights=[55, 25, 15, 5])[0]
     cl = canon_set(abi, clob)
-    if avoid or rc.random() < 0.5:
+    # (read registers that are also clobbered / not allocatable / named twice
+    # through aliases: finding F24, fixed - ordinary workload)
+    if rc.random() < 0.5:
         cand = [n for n in names if info["names"][n][0] in info["pool"] and info["names"][n][0] not in cl]
     else:
         cand = names
     picked = rc.sample(cand, min(nreads, len(cand)))
-    if avoid:
-        uniq = {}
-        for n in picked:
-            uniq.setdefault(info["names"][n][0], n)
-        picked = list(uniq.values())
     reads = sorted({_mixcase(rc, n) for n in picked})
     cons["reads_registers"] = reads
     avail = available_scratch(abi, cons)
@@ -488,12 +485,7 @@ def known_triggers_c16(abi, cons, func):
 def _steer_c16(r, abi, cons, func):
     info = ABIS[abi]
     trig = known_triggers_c16(abi, cons, func)
-    if "align_stack-only-leaf" in trig:
-        if r.random() < 0.5:
-            func["kind"] = "nonleaf"
-            func["history"] = False
-        else:
-            cons["clobbers_flags"] = True
+    # ("align_stack-only-leaf": finding F23, fixed - no longer steered around)
     if "no-free-flags-register" in trig:
         # free one register
         victim = r.choice(info["pool"])
@@ -637,18 +629,16 @@ def gen_c17(seed, params):
             regs = rc.sample(pool, nreg)
         if info["cpu"] == "arm64":
             align, shadow = 16, 0
-            cleanup = True if avoid else rc.random() < 0.8
+            cleanup = rc.random() < 0.8  # (callee cleanup on ARM64: finding F31, fixed)
         else:
             align = max(W, rc.choice([W, 8, 16, 16, 32, 64]))
             k = rc.random()
             if k < 0.4:
                 shadow = 0
-            elif k < 0.8 or avoid:
+            elif k < 0.8:
                 shadow = align * rc.randint(1, 3)
             else:
-                shadow = W * rc.randint(1, 9)
-            if avoid and shadow % align:
-                shadow = 0
+                shadow = W * rc.randint(1, 9)  # (not a multiple of the alignment: finding F32, fixed)
             cleanup = rc.random() < 0.6
         conv = {"registers": [_mixcase(rc, x) for x in regs], "stack_alignment": align, "caller_cleanup": cleanup, "shadow_space": shadow}
     ra = streams.get("gen.args")
@@ -668,9 +658,8 @@ def gen_c17(seed, params):
             for _ in range(20):
                 if v["k"] != "int":
                     break
-                bad = (info["cpu"] == "arm64" and -0xFFFF <= v["v"] < 0) or (
-                    info["cpu"] == "x64" and i >= nregs and not (-(2**31) <= v["v"] < 2**31)
-                )
+                # (ARM64 small negative integers: finding F28, fixed)
+                bad = info["cpu"] == "x64" and i >= nregs and not (-(2**31) <= v["v"] < 2**31)
                 if not bad:
                     break
                 v = {"k": "int", "v": gen_int(ra, abi)}
